@@ -77,6 +77,7 @@ func main() {
 			r.Obls = append(r.Obls, &report.Obligation{Rule: id + ".load", Construct: "program", Status: report.Undecided, Kind: "load", Detail: lerr.Error()})
 		} else {
 			ctx := rules.NewCtx(p, r, *tier)
+			ctx.UseCHA = *tier == "thorough"
 			func() {
 				defer func() {
 					if e := recover(); e != nil {
@@ -88,7 +89,7 @@ func main() {
 			r.Count("module_packages", len(p.ModPkgs))
 			r.Count("packages_loaded", len(p.ByPath))
 		}
-		extra := map[string]any{"goarch": *goarch, "repo": abs}
+		extra := map[string]any{"goarch": *goarch, "repo": abs, "callgraphs": map[bool][]string{true: {"vta", "cha"}, false: {"vta"}}[*tier == "thorough"]}
 		if p != nil {
 			extra["timings"] = p.Timings
 		}
